@@ -80,6 +80,19 @@ def run(ctx):
         reals.append(rr)
         cases.append({"kind": "real", "sent": rr["sent"], "got": rr["got"], "alive": rr["alive"]})
         metas.append({k: rr[k] for k in ("transport", "threads", "items", "size", "errors")})
+    # the sending side is the worker: several threads / greenlets with multi-megabyte frames over a socket
+    hosts = ["thread"]
+    try:
+        import gevent  # noqa: F401
+
+        hosts.append("gevent")
+    except ImportError:
+        ctx.note("gevent not installed: no greenlet senders")
+    for host in hosts:
+        rr = wire_real.run_remote_senders(host, 3, 3, 8000000)
+        reals.append(rr)
+        cases.append({"kind": "real", "sent": rr["sent"], "got": rr["got"], "alive": rr["alive"]})
+        metas.append({k: rr[k] for k in ("transport", "threads", "items", "size", "errors")})
     verdicts = batch.judge("WireCases", cases, ctx.scratch)
     hist = {}
     nontrivial = 0
